@@ -41,6 +41,14 @@ fn main() {
             "rowset" => util::guard(|| rowset::run(&v)),
             "crc" => util::guard(|| c18::crc(&v)),
             "sql" => util::guard(|| sql::run(&v)),
+            "rules" => util::guard(|| {
+                serde_json::Value::Array(
+                    risinglight::verif::rule_inventory()
+                        .into_iter()
+                        .map(|(stage, name, lhs, rhs)| serde_json::json!({"stage": stage, "name": name, "lhs": lhs, "rhs": rhs}))
+                        .collect(),
+                )
+            }),
             _ => panic!("unknown command {cmd}"),
         };
         writeln!(out, "{}", r).unwrap();
